@@ -1,13 +1,24 @@
 //! Counting global allocator: the memory oracle of C04.
 //!
 //! Per *thread* it tracks live bytes, their peak and the largest single request
-//! since the last `reset`. Requests above `REFUSE_ABOVE` are refused (null),
+//! since the last `reset`. Requests above a configurable limit are refused (null),
 //! which makes infallible allocation abort the process – the worker pool
 //! attributes that abort to the case that was announced.
 use std::alloc::{GlobalAlloc, Layout, System};
 use std::cell::Cell;
 
-pub const REFUSE_ABOVE: usize = 256 << 20;
+/// Requests above this many bytes are refused. Unlimited unless a sweep over untrusted
+/// input (C04 workers) lowers it with `set_refuse_above`.
+static REFUSE_ABOVE: std::sync::atomic::AtomicUsize = std::sync::atomic::AtomicUsize::new(usize::MAX);
+
+pub fn set_refuse_above(n: usize) {
+    REFUSE_ABOVE.store(n, std::sync::atomic::Ordering::Relaxed);
+}
+
+#[inline]
+fn limit() -> usize {
+    REFUSE_ABOVE.load(std::sync::atomic::Ordering::Relaxed)
+}
 
 thread_local! {
     static LIVE: Cell<i64> = const { Cell::new(0) };
@@ -43,7 +54,7 @@ fn on_free(sz: usize) {
 
 unsafe impl GlobalAlloc for Counting {
     unsafe fn alloc(&self, l: Layout) -> *mut u8 {
-        if l.size() > REFUSE_ABOVE {
+        if l.size() > limit() {
             let _ = REFUSED.try_with(|r| r.set(r.get().max(l.size())));
             let _ = MAXREQ.try_with(|m| m.set(m.get().max(l.size())));
             return std::ptr::null_mut();
@@ -55,7 +66,7 @@ unsafe impl GlobalAlloc for Counting {
         p
     }
     unsafe fn alloc_zeroed(&self, l: Layout) -> *mut u8 {
-        if l.size() > REFUSE_ABOVE {
+        if l.size() > limit() {
             let _ = REFUSED.try_with(|r| r.set(r.get().max(l.size())));
             let _ = MAXREQ.try_with(|m| m.set(m.get().max(l.size())));
             return std::ptr::null_mut();
@@ -71,7 +82,7 @@ unsafe impl GlobalAlloc for Counting {
         System.dealloc(p, l)
     }
     unsafe fn realloc(&self, p: *mut u8, l: Layout, new: usize) -> *mut u8 {
-        if new > REFUSE_ABOVE {
+        if new > limit() {
             let _ = REFUSED.try_with(|r| r.set(r.get().max(new)));
             let _ = MAXREQ.try_with(|m| m.set(m.get().max(new)));
             return std::ptr::null_mut();
